@@ -50,11 +50,11 @@ for p in props:
     })
 na = [{"property_id": p["id"], "reason": NA_REASON} for p in props if p["id"] not in CLAIMS]
 m = {"version": 1,
-     "setup_cmd": "cd harness && cargo build --offline --bins && cargo build --offline --bins --release",
+     "setup_cmd": "cd harness && cargo build --offline --bins && cargo build --offline --bins --release && cd /repo && RUSTFLAGS='--cfg toodee_verif --check-cfg cfg(toodee_verif)' RUSTDOCFLAGS='--cfg toodee_verif --check-cfg cfg(toodee_verif)' CARGO_TARGET_DIR=/verif/out/hooktarget cargo test --offline --no-run --quiet",
      "hooks": {"guard": "toodee_verif",
                "enable": "--cfg toodee_verif via /verif/harness/.cargo/config.toml rustflags (the harness builds /repo as a path dependency)",
                "baseline_off_cmd": "cd /repo && cargo test --workspace --no-fail-fast --offline",
-               "source_commits": [], "add_only": True},
+               "source_commits": ["c10e4f6"], "add_only": True},
      "engines": [{"name": "tlc+conformance", "path": "check", "serves_properties": sorted(CLAIMS),
                   "kind_free_text": "TLC model checking of /verif/spec/*.tla + replay of TLC-emitted cases by /verif/harness (spec->code) + TLC validation of traces recorded from the real crate (code->spec)"}],
      "checks": checks,
